@@ -128,9 +128,14 @@ def main():
     hof = c19.hof_replay_traces(_Ctx, 0)[:1]
     assert verdict("Trace_Evo", hof[0]) == []
     t = copy.deepcopy(hof[0])
-    ev = next(e for e in t["events"] if len([x for x in e["after"] if x["size"]]) >= 2)
+    ev = next(e for e in t["events"] if len([x for x in e["after"] if x["size"]]) >= 2
+              and e["after"][0]["score"] + 100000 < e["after"][1]["score"])
     ev["after"][0], ev["after"][1] = ev["after"][1], ev["after"][0]
-    demos.append(("C19 hall of fame entries swapped", "Trace_Evo", t, {"HofUpdateRule", "HofSorted"}))
+    demos.append(("C19 hall of fame entries swapped", "Trace_Evo", t, {"HofSorted"}))
+    t = copy.deepcopy(hof[0])
+    ev = next(e for e in t["events"] if [x for x in e["after"] if x["size"]])
+    ev["after"][0]["size"] += 7
+    demos.append(("C19 hall of fame holds a circuit nobody handed in", "Trace_Evo", t, {"HofFromKnown"}))
 
     # --- certificate-based orbit membership (C16): a certificate that does not lead to the returned graph
     import graphiq.utils.relabel_module as rm
